@@ -16,6 +16,9 @@ RULE = ("tree: one process per case. A case is an action (bench under the virtua
         "formatters. Compared: whole stdout, byte for byte, with the model's rendering; Sb: stdout parses (indentation, glyphs, bars, "
         "row attachment validated) to the skeleton of the tree that ran with exactly these cells, and the recorded calls are exactly "
         "the non-ignored (argument x thread count) runs in order. Non-trivial = at least 3 nodes and model output ok; distinct by case. "
+        "Bench cases also vary where the bytes format is set (--bytes-format, DIVAN_BYTES_FORMAT, Divan::bytes_format before / after "
+        "config_with_args(), or nowhere); the expected byte throughputs and allocation sizes are computed for the format that should be "
+        "in force (builder after parsing > flag > environment > builder before parsing > decimal). "
         "The 'filtered' stream adds positional and --skip filters (with and without --exact) that remove a strict non-empty subset of a "
         "benchmark's argument cases (last declared, middle, first, all but one) and whole benchmarks/groups; the generator evaluates "
         "FilterSet::is_match on every display path and hands the model the surviving tree. "
@@ -158,8 +161,17 @@ class Gen:
         self.feat["profiler"] += prof == "p1"
         self.feat["maxdepth=%d" % maxdepth] += 1
         tail = ""
+        if action == "bench" and r.random() < 0.5:
+            # where the bytes format is set: --bytes-format, DIVAN_BYTES_FORMAT, builder before / after config_with_args()
+            f = [r.choice("-----db") for _ in range(4)]
+            if r.random() < 0.4:
+                f = ["-", "-", r.choice("bbd"), "-"]        # builder only, nothing on the command line or in the environment
+            if f != ["-"] * 4:
+                tail = " F " + ":".join(f)
+                self.feat["bytes-format-set"] += 1
+                self.feat["bytes-format-builder-only"] += f[0] == "-" and f[1] == "-" and f[3] == "-"
         if r.random() < 0.08:
-            tail = " T " + r.choice([t for t in THREADS if t != "-"])
+            tail += " T " + r.choice([t for t in THREADS if t != "-"])
             self.feat["--threads"] += 1
         return "%s %s N %d %s%s" % (action, prof, len(tops), " ".join(tops), tail)
 
@@ -287,9 +299,11 @@ def _parse(case):
     assert nxt() == "N"
     tops = [node() for _ in range(int(nxt()))]
     flt = None
-    if pos[0] < len(t) and t[pos[0]] == "T":
-        nxt()
-        prof = prof + "|" + nxt()      # "--threads" travels with the profile flag through _ser
+    mid = []
+    while pos[0] < len(t) and t[pos[0]] in ("F", "T"):     # bytes format, --threads: travel with the profile flag through _ser
+        mid += [nxt(), nxt()]
+    if mid:
+        prof = prof + "|" + " ".join(mid)
     if pos[0] < len(t) and t[pos[0]] == "X":
         nxt()
         exact = nxt() == "e"
@@ -351,7 +365,7 @@ def _ser(action, prof, tops, flt=None):
         return "B %s %s %s %s %s %s %s" % (n[1], n[2], n[3], n[4], a, n[6], n[7])
     prof, _, cli = prof.partition("|")
     return ("%s %s N %d %s" % (action, prof, len(tops), " ".join(s(x) for x in tops))
-            + (" T " + cli if cli else "") + filter_tail(tops, flt)).rstrip()
+            + (" " + cli if cli else "") + filter_tail(tops, flt)).rstrip()
 
 
 def rx_escape(text):
@@ -468,18 +482,42 @@ def shrink(item, rerun):
     action, prof, tops, flt = _parse(item["case"])
     budget = 150
     best = dict(item)
+    def attempt(prof_, tops_, flt_):
+        nonlocal budget
+        budget -= 1
+        case = _ser(action, prof_, tops_, flt_)
+        impl, model, sb = rerun("tree", case, crate=item.get("crate", CRATE), release=False, model_input=model_input, drv=DRV)
+        if sb.startswith("false"):
+            best.update({"case": case, "impl": impl, "model": model, "spec_verdict": sb})
+            return True
+        return False
+
+    # first the sections after the tree: filters as a whole, then one by one; --threads; the bytes-format section
+    if flt is not None and attempt(prof, tops, None):
+        flt = None
+    while flt is not None and budget > 0:
+        for i in range(len(flt[1])):
+            cand = (flt[0], flt[1][:i] + flt[1][i + 1:])
+            if cand[1] and attempt(prof, tops, cand):
+                flt = cand
+                break
+        else:
+            break
+    base, _, mid = prof.partition("|")
+    toks = mid.split(" ") if mid else []
+    for k in range(0, len(toks), 2):
+        cand = base + ("|" + " ".join(toks[:k] + toks[k + 2:]) if len(toks) > 2 else "")
+        if budget > 0 and attempt(cand, tops, flt):
+            prof = cand
+            break
     progress = True
     while progress and budget > 0:
         progress = False
         for cand in _variants(tops):
             if budget <= 0:
                 break
-            budget -= 1
-            case = _ser(action, prof, cand, flt)
-            impl, model, sb = rerun("tree", case, crate=item.get("crate", CRATE), release=False, model_input=model_input, drv=DRV)
-            if sb.startswith("false"):
+            if attempt(prof, cand, flt):
                 tops = cand
-                best.update({"case": case, "impl": impl, "model": model, "spec_verdict": sb})
                 progress = True
                 break
     return best
